@@ -20,7 +20,7 @@ import (
 	"time"
 
 	"verifharness/fw"
-	_ "verifharness/mon"
+	"verifharness/mon"
 )
 
 const verifDir = "/verif"
@@ -67,6 +67,19 @@ func main() {
 		m := fw.Get(os.Args[2])
 		r := fw.RunCase(m, os.Args[3], seed, idx)
 		fmt.Println(fw.JSON(r))
+	case "replaylog":
+		b, err := os.ReadFile(os.Args[2])
+		if err != nil {
+			fmt.Fprintln(os.Stderr, err)
+			os.Exit(2)
+		}
+		var rf mon.ReplayFile
+		if err := json.Unmarshal(b, &rf); err != nil {
+			fmt.Fprintln(os.Stderr, err)
+			os.Exit(2)
+		}
+		d, _ := mon.ReplayLog(rf)
+		fmt.Println(fw.JSON(d))
 	case "list":
 		fmt.Println(strings.Join(fw.IDs(), "\n"))
 	default:
